@@ -25,9 +25,11 @@ const TES: [Option<&str>; 7] = [
     Some("identity;q=0.5, chunked;q=0.9"),
     Some("chunked;q=0"),
 ];
-// reader piece sizes; 0 = whole, usize::MAX = irregular cycle
-const PIECES_T: [usize; 7] = [0, 1, 7, 4096, 8192, 8193, usize::MAX];
-const PIECES_Q: [usize; 3] = [0, 7, usize::MAX];
+// reader piece sizes; 0 = whole, usize::MAX = irregular cycle, usize::MAX - 1 = irregular cycle
+// with a transient ErrorKind::Interrupted before every second piece (Read's contract: retry)
+const INTERRUPTING: usize = usize::MAX - 1;
+const PIECES_T: [usize; 8] = [0, 1, 7, 4096, 8192, 8193, usize::MAX, INTERRUPTING];
+const PIECES_Q: [usize; 4] = [0, 7, usize::MAX, INTERRUPTING];
 const THRESHOLD_KINDS: usize = 7; // 0, 1, len-1, len, len+1, default, MAX
 
 /// A reader that hands out its data in pieces of a prescribed size.
@@ -36,6 +38,7 @@ pub struct PieceReader {
     pos: usize,
     piece: usize,
     n: usize,
+    calls: usize,
 }
 
 impl PieceReader {
@@ -45,6 +48,7 @@ impl PieceReader {
             pos: 0,
             piece,
             n: 0,
+            calls: 0,
         }
     }
 }
@@ -52,9 +56,13 @@ impl PieceReader {
 impl Read for PieceReader {
     fn read(&mut self, buf: &mut [u8]) -> std::io::Result<usize> {
         let left = self.data.len() - self.pos;
+        self.calls += 1;
+        if self.piece == INTERRUPTING && self.calls % 2 == 1 {
+            return Err(std::io::Error::new(std::io::ErrorKind::Interrupted, "interrupted (transient)"));
+        }
         let mut k = match self.piece {
             0 => left,
-            usize::MAX => [1usize, 4095, 3, 8192, 2, 10000][self.n % 6],
+            usize::MAX | INTERRUPTING => [1usize, 4095, 3, 8192, 2, 10000][self.n % 6],
             p => p,
         };
         self.n += 1;
@@ -83,7 +91,7 @@ impl Config {
         json!({"status": self.status, "len": self.len, "declared": self.declared,
                "threshold": self.threshold.map(|t| t.to_string()),
                "version": format!("{}.{}", self.version.0, self.version.1), "head": self.head,
-               "te": self.te, "piece": if self.piece == usize::MAX { "irregular".to_string() } else { self.piece.to_string() },
+               "te": self.te, "piece": if self.piece == usize::MAX { "irregular".to_string() } else if self.piece == INTERRUPTING { "irregular+interrupted".to_string() } else { self.piece.to_string() },
                "extra_headers": self.extra_headers})
     }
     fn from_json(c: &Value) -> Config {
@@ -98,6 +106,7 @@ impl Config {
             te: c["te"].as_str().map(|s| s.to_string()),
             piece: match c["piece"].as_str() {
                 Some("irregular") => usize::MAX,
+                Some("irregular+interrupted") => INTERRUPTING,
                 Some(s) => s.parse().unwrap_or(0),
                 None => 0,
             },
@@ -361,7 +370,7 @@ impl Check for C04 {
     }
     fn rule(&self, tier: Tier) -> String {
         format!(
-            "full product status{:?} x body length{:?} x declared/undeclared x threshold{{0,1,len-1,len,len+1,default,usize::MAX}} x version{{1.0,1.1}} x HEAD/GET x TE{:?} x reader piece size{:?} (0=whole, max=irregular cycle) x extra headers 0..{} = {} responses printed by Response::raw_print; each output must be consumed exactly by the independent RFC 7230 client parser, which must recover the status and exactly the body; plus {} responses sent through a real connection (status x length {{0,5,8193,40000}} x declared/undeclared x GET/HEAD x HTTP/1.0 keep-alive/1.1 x TE absent/chunked/identity, followed by a second request whose answer must be found right after); non-trivial = body length > 0",
+            "full product status{:?} x body length{:?} x declared/undeclared x threshold{{0,1,len-1,len,len+1,default,usize::MAX}} x version{{1.0,1.1}} x HEAD/GET x TE{:?} x reader piece size{:?} (0=whole, max=irregular cycle, max-1=irregular cycle with a transient Interrupted error before every piece) x extra headers 0..{} = {} responses printed by Response::raw_print; each output must be consumed exactly by the independent RFC 7230 client parser, which must recover the status and exactly the body; plus {} responses sent through a real connection (status x length {{0,5,8193,40000}} x declared/undeclared x GET/HEAD x HTTP/1.0 keep-alive/1.1 x TE absent/chunked/identity, followed by a second request whose answer must be found right after); non-trivial = body length > 0",
             STATUSES, lengths(tier), TES, pieces(tier), if tier == Tier::Quick { 1 } else { 2 }, space(tier).size(), l1_space().size()
         )
     }
